@@ -11,8 +11,12 @@ fn hist_key(h: &History) -> u64 {
 
 fn run_plain(ctx: &mut Ctx, h: &History) -> RunResult {
     ctx.eval();
-    ctx.distinct(hist_key(h));
-    run_history(ctx, h, &RunCfg { trap_clock: true, ..Default::default() })
+    let k = hist_key(h);
+    ctx.distinct(k);
+    // a deterministic sample of the histories is recorded for the offline checker: 1 in 64 of the
+    // short (enumerated) ones, 1 in 4 of the long ones
+    let record = if h.ops.len() <= 6 { k % 64 == 0 } else { k % 4 == 0 };
+    run_history(ctx, h, &RunCfg { trap_clock: true, record, ..Default::default() })
 }
 
 /// systematic small scope: every history of exactly `depth` operations (shorter ones are prefixes
@@ -55,7 +59,7 @@ pub fn random_histories(ctx: &mut Ctx, n: u64, emphasis: &str, min_len: usize, m
         ctx.count("random-histories");
         ctx.count_n("random-history-operations", len as u64);
         if i < 2 {
-            let head = History { tcp: h.tcp, remote0: h.remote0, ops: h.ops.iter().take(12).cloned().collect() };
+            let head = History { tcp: h.tcp, remote0: h.remote0, remote_addr: h.remote_addr, ops: h.ops.iter().take(12).cloned().collect() };
             ctx.sample(&format!("random-{emphasis}"), || json!({"first_operations": head.to_json(), "operations": len, "first_replies": r.log.iter().take(12).collect::<Vec<_>>()}));
         }
     }
@@ -76,7 +80,7 @@ pub fn stress_shapes(ctx: &mut Ctx, reps: u64) {
             for _ in 0..(n as usize * 8 + 4) {
                 ops.push(Op::Poll(PollAt::AtWait));
             }
-            let h = History { tcp: false, remote0: None, ops };
+            let h = History { tcp: false, remote0: None, remote_addr: None, ops };
             let res = run_history(ctx, &h, &RunCfg { drain_polls: r % 2 == 0, trap_clock: true, ..Default::default() });
             ctx.eval();
             ctx.distinct(hist_key(&h) ^ r);
@@ -101,6 +105,7 @@ pub fn stress_shapes(ctx: &mut Ctx, reps: u64) {
         let h = History {
             tcp: rng.chance(1, 4),
             remote0: None,
+            remote_addr: None,
             ops: vec![req(0, 0, Sealing::None, 1), req(1, 1, Sealing::None, 2), Op::Poll(PollAt::After(late)), Op::Poll(PollAt::Now), Op::Poll(PollAt::Now), Op::Poll(PollAt::AtWait), Op::Poll(PollAt::AtWait)],
         };
         run_plain(ctx, &h);
@@ -108,6 +113,7 @@ pub fn stress_shapes(ctx: &mut Ctx, reps: u64) {
         let h = History {
             tcp: false,
             remote0: Some(0),
+            remote_addr: None,
             ops: vec![
                 req(0, 0, Sealing::None, 3),
                 Op::Cancel(0),
@@ -140,12 +146,13 @@ pub fn stress_shapes(ctx: &mut Ctx, reps: u64) {
             ops.push(req(2, 4, Sealing::None, 7)); // duplicate while outstanding
             ops.push(Op::Poll(PollAt::AtWait));
             ops.push(Op::Poll(PollAt::AtWait));
-            run_plain(ctx, &History { tcp: rng.chance(1, 3), remote0: None, ops });
+            run_plain(ctx, &History { tcp: rng.chance(1, 3), remote0: None, remote_addr: None, ops });
         }
         // (5) reconfiguration to fewer retransmissions than already sent
         let h = History {
             tcp: false,
             remote0: None,
+            remote_addr: None,
             ops: vec![
                 req(0, 0, Sealing::None, 8),
                 Op::Poll(PollAt::AtWait),
@@ -164,12 +171,12 @@ pub fn stress_shapes(ctx: &mut Ctx, reps: u64) {
         // (6) forged responses at every point of the schedule do not move it
         let mut ops = vec![Op::SetRemote(0), req(1, 2, *rng.pick(&[Sealing::Sha1, Sealing::Sha256, Sealing::Both]), 9)];
         for k in 0..8 {
-            ops.push(Op::Response { tid: 1, from: (k % 5) as u8, error: k % 2 == 0, seal: *rng.pick(&[RespSeal::Unsigned, RespSeal::Sha1(2), RespSeal::CorruptSha1(0), RespSeal::CorruptSha256(0), RespSeal::Sha256(1, 32)]), fp: k % 3 == 0 });
+            ops.push(Op::Response { tid: 1, from: (k % 5) as u8, error: k % 2 == 0, seal: *rng.pick(&[RespSeal::Unsigned, RespSeal::Sha1(2), RespSeal::CorruptSha1(0), RespSeal::CorruptSha256(0), RespSeal::Sha256(1, 32), RespSeal::OddLen(0, k as u8), RespSeal::GoodBad(0)]), fp: k % 3 == 0 });
             ops.push(Op::Poll(if k % 2 == 0 { PollAt::AtWait } else { PollAt::Half }));
             ops.push(Op::Poll(PollAt::AtWait));
         }
         ops.push(Op::Response { tid: 1, from: 2, error: false, seal: *rng.pick(&[RespSeal::Sha1(0), RespSeal::Sha256(0, 32), RespSeal::Sha256(0, 16), RespSeal::Both(0)]), fp: true });
-        run_plain(ctx, &History { tcp: false, remote0: None, ops });
+        run_plain(ctx, &History { tcp: false, remote0: None, remote_addr: None, ops });
         ctx.count_n("stress-histories", 8);
     }
 }
@@ -183,7 +190,7 @@ pub fn schedule_sweep(ctx: &mut Ctx, n: u64) {
         for _ in 0..10 {
             ops.push(Op::Poll(PollAt::AtWait));
         }
-        let h = History { tcp, remote0: None, ops };
+        let h = History { tcp, remote0: None, remote_addr: None, ops };
         let r = run_history(ctx, &h, &RunCfg { trap_clock: true, ..Default::default() });
         ctx.eval();
         let sends: Vec<String> = r.log.iter().filter(|l| l.contains("SendData") || l.contains("Transmit") || l.contains("TimedOut")).map(|l| l.split(' ').next().unwrap_or("").to_string()).collect();
@@ -243,7 +250,7 @@ pub fn schedule_sweep(ctx: &mut Ctx, n: u64) {
                 ops.push(if rng.chance(1, 2) { gen_configure(&mut rng, t) } else { Op::CancelRetrans(t) });
             }
         }
-        let h = History { tcp, remote0: None, ops };
+        let h = History { tcp, remote0: None, remote_addr: None, ops };
         run_plain(ctx, &h);
         ctx.count("schedule-histories");
         if i < 1 {
@@ -266,7 +273,7 @@ pub fn schedule_sweep(ctx: &mut Ctx, n: u64) {
                     for _ in 0..12 {
                         ops.push(Op::Poll(PollAt::AtWait));
                     }
-                    run_plain(ctx, &History { tcp, remote0: None, ops });
+                    run_plain(ctx, &History { tcp, remote0: None, remote_addr: None, ops });
                     ctx.count("configuration-grid");
                 }
             }
@@ -333,6 +340,7 @@ pub fn run_c07(ctx: &mut Ctx) {
         Op::Response { tid: 1, from: 2, error: false, seal: RespSeal::CorruptSha1(0), fp: false },
         Op::Response { tid: 2, from: 1, error: false, seal: RespSeal::Sha256(0, 16), fp: false },
         Op::Response { tid: 0, from: 0, error: false, seal: RespSeal::CorruptSha256(1), fp: false },
+        Op::Response { tid: 1, from: 2, error: false, seal: RespSeal::OddLen(0, 0), fp: false },
         Op::SetRemote(2),
         Op::SetRemote(0),
     ];
@@ -421,7 +429,7 @@ pub fn run_c20(ctx: &mut Ctx) {
         let shift = *rng.pick(&[1u64, 1000, 3_600_000, 1_000_000_000, rs]);
         check_c20_history(ctx, &h, shift, i % 16 == 0);
         if i < 2 {
-            ctx.sample("history", || json!({"operations": len, "shift_ms": shift, "first_operations": History { tcp: h.tcp, remote0: h.remote0, ops: h.ops.iter().take(10).cloned().collect() }.to_json()}));
+            ctx.sample("history", || json!({"operations": len, "shift_ms": shift, "first_operations": History { tcp: h.tcp, remote0: h.remote0, remote_addr: h.remote_addr, ops: h.ops.iter().take(10).cloned().collect() }.to_json()}));
         }
     }
     // the enumerated small scope, each history replayed shifted
